@@ -126,6 +126,13 @@ Names == [zbody |-> N("zbody", "Zbody", "zbody"), answer |-> N("answer", "Answer
                      mUnsignedByte |-> N("mUnsignedByte", "MUnsignedByte", "m_unsigned_byte"),
                      mShort |-> N("mShort", "MShort", "m_short"),
                      mBoolean |-> N("mBoolean", "MBoolean", "m_boolean"),
+                     mToken |-> N("mToken", "MToken", "m_token"), mName |-> N("mName", "MName", "m_name"),
+                     mNCName |-> N("mNCName", "MNcName", "m_nc_name"), mNmtoken |-> N("mNmtoken", "MNmtoken", "m_nmtoken"),
+                     mNmtokens |-> N("mNmtokens", "MNmtokens", "m_nmtokens"), mQName |-> N("mQName", "MQName", "m_q_name"),
+                     mGYear |-> N("mGYear", "MGYear", "m_g_year"), mGYearMonth |-> N("mGYearMonth", "MGYearMonth", "m_g_year_month"),
+                     mGMonth |-> N("mGMonth", "MGMonth", "m_g_month"), mGMonthDay |-> N("mGMonthDay", "MGMonthDay", "m_g_month_day"),
+                     mGDay |-> N("mGDay", "MGDay", "m_g_day"), mAnySimple |-> N("mAnySimple", "MAnySimple", "m_any_simple"),
+                     TextHolder |-> N("TextHolder", "TextHolder", "text_holder"),
                      kw_type |-> N("type", "Type", "r#type"),
                      kw_self |-> N("self", "Self_", "self_"),
                      kw_match |-> N("match", "Match", "r#match"),
@@ -156,6 +163,17 @@ TokTab == [String |-> [lo |-> Lit("String::new()", ""), hi |-> Lit("\"zz top\".t
            language |-> [lo |-> SLit("en"), hi |-> SLit("en-GB"), esc |-> SLit("x-klingon")],
            base64Binary |-> [lo |-> SLit(""), hi |-> SLit("enYgdGVzdA=="), esc |-> SLit("QQ==")],
            hexBinary |-> [lo |-> SLit(""), hi |-> SLit("0FB7"), esc |-> SLit("00ff")],
+           token |-> [lo |-> SLit(""), hi |-> SLit("zz top"), esc |-> SLit("a<b&c>d'e")],
+           Name |-> [lo |-> SLit("a"), hi |-> SLit("zz:top"), esc |-> SLit("_x.y-z")],
+           NCName |-> [lo |-> SLit("a"), hi |-> SLit("zz_top"), esc |-> SLit("_x.y-z")],
+           NMTOKEN |-> [lo |-> SLit("1"), hi |-> SLit("zz-top"), esc |-> SLit("a.b:c")],
+           NMTOKENS |-> [lo |-> SLit("a"), hi |-> SLit("a b c"), esc |-> SLit("1 2")],
+           QName |-> [lo |-> SLit("a"), hi |-> SLit("zz_top"), esc |-> SLit("local")],
+           gYear |-> [lo |-> SLit("0001"), hi |-> SLit("2024"), esc |-> SLit("1999Z")],
+           gYearMonth |-> [lo |-> SLit("0001-01"), hi |-> SLit("2024-02"), esc |-> SLit("1999-12Z")],
+           gMonth |-> [lo |-> SLit("--01"), hi |-> SLit("--12"), esc |-> SLit("--06Z")],
+           gMonthDay |-> [lo |-> SLit("--01-01"), hi |-> SLit("--02-29"), esc |-> SLit("--12-31Z")],
+           gDay |-> [lo |-> SLit("---01"), hi |-> SLit("---31"), esc |-> SLit("---15Z")],
            nonNegativeInteger |-> [lo |-> Lit("0i32", "0"), hi |-> Lit("i32::MAX", "2147483647"), esc |-> Lit("1i32", "1")],
            positiveInteger |-> [lo |-> Lit("1i32", "1"), hi |-> Lit("i32::MAX", "2147483647"), esc |-> Lit("2i32", "2")],
            nonPositiveInteger |-> [lo |-> Lit("i32::MIN", "-2147483648"), hi |-> Lit("0i32", "0"), esc |-> Lit("-1i32", "-1")],
@@ -185,6 +203,13 @@ MemberName == [byte |-> "mByte", string |-> "mString", normalizedString |-> "mNo
                nonNegativeInteger |-> "mNonNegativeInteger", nonPositiveInteger |-> "mNonPositiveInteger", positiveInteger |-> "mPositiveInteger",
                long |-> "mLong", unsignedLong |-> "mUnsignedLong", unsignedInt |-> "mUnsignedInt", unsignedShort |-> "mUnsignedShort",
                unsignedByte |-> "mUnsignedByte", short |-> "mShort", boolean |-> "mBoolean"]
+\* the text builtins added to the table by D35 (without ID / IDREF / ENTITY / NOTATION, whose validity is a property of the
+\* whole document and cannot be kept by repeating one value)
+TextSeq == <<"token", "Name", "NCName", "NMTOKEN", "NMTOKENS", "QName", "gYear", "gYearMonth", "gMonth", "gMonthDay", "gDay", "anySimpleType">>
+TextMember == [token |-> "mToken", Name |-> "mName", NCName |-> "mNCName", NMTOKEN |-> "mNmtoken", NMTOKENS |-> "mNmtokens", QName |-> "mQName",
+               gYear |-> "mGYear", gYearMonth |-> "mGYearMonth", gMonth |-> "mGMonth", gMonthDay |-> "mGMonthDay", gDay |-> "mGDay",
+               anySimpleType |-> "mAnySimple"]
+TextBuiltinMembers == [i \in 1..Len(TextSeq) |-> El(TextMember[TextSeq[i]], B(TextSeq[i]), IF i % 3 = 0 \/ i % 4 = 0 THEN 0 ELSE 1, IF i % 4 = 0 THEN "unb" ELSE "1")]
 AllBuiltins(min, max) == [i \in 1..Len(BuiltinSeq) |-> El(MemberName[BuiltinSeq[i]], B(BuiltinSeq[i]), min, max)]
 
 NearX == << <<"t", "Unear">>, <<"o", "Ufar">> >>
@@ -196,6 +221,7 @@ Helpers == << Cx("OtherType", None, << El("otherValue", B("string"), 1, "1") >>,
 \* ---- XSD shapes
 TypeCases ==
   [builtins_req |-> << Xsd("main.xsd", "Unear", NearX, << Cx("AllRequired", None, AllBuiltins(1, "1"), <<>>) >>) >>,
+   text_builtins |-> << Xsd("main.xsd", "Unear", NearX, << Cx("TextHolder", None, TextBuiltinMembers, << At("keyAttr", B("NCName"), "req"), At("tagAttr", B("token"), "opt") >>) >>) >>,
    builtins_opt |-> << Xsd("main.xsd", "Unear", NearX, << Cx("AllOptional", None, AllBuiltins(0, "1"), <<>>) >>) >>,
    builtins_vec |-> << Xsd("main.xsd", "Unear", NearX, << Cx("AllRepeated", None, AllBuiltins(0, "unb"), <<>>) >>) >>,
    positions |-> << Xsd("main.xsd", "Unear", NearX, << Imp("Ufar", "far.xsd") >> \o Helpers \o
@@ -287,7 +313,7 @@ TypeCases ==
                     << Cx("kw_self", None, << El("kw_type", B("string"), 1, "1"), El("kw_match", B("int"), 0, "1"), El("kw_async", B("string"), 0, "unb"),
                                               El("kw_crate", B("boolean"), 1, "1") >>,
                           << At("kw_self", B("string"), "opt") >>) >>) >>]
-TypeLabels == IF Tier = "quick" THEN {"builtins_req", "builtins_vec", "positions", "extension_near", "extension_far", "extension_far_user", "two_foreign", "deep_shared", "homonym_default", "simple_restricted", "keywords", "three_ns", "sibling_collide"}
+TypeLabels == IF Tier = "quick" THEN {"builtins_req", "builtins_vec", "text_builtins", "positions", "extension_near", "extension_far", "extension_far_user", "two_foreign", "deep_shared", "homonym_default", "simple_restricted", "keywords", "three_ns", "sibling_collide"}
               ELSE DOMAIN TypeCases
 
 \* ---- WSDL shapes
@@ -311,6 +337,26 @@ WsdlCases ==
                              output |-> [msg |-> "response", headers |-> << Hdr("response", "sess") >>]] >>,
                          << Msg("request", << Part("auth", "tns", "AuthHeader"), Part("bodyPart", "tns", "GetItem"), Part("trace", "tns", "TraceHeader") >>),
                             Msg("response", << Part("sess", "tns", "SessionHeader"), Part("bodyPart", "tns", "GetItemResponse") >>) >>)) >>,
+   \* a SOAP 1.2 binding of the same port type next to the SOAP 1.1 one, each with its port (what most stacks publish):
+   \* the operations, and therefore the envelope types and the client's methods, exist once
+   bindings_after |-> << Wsdl(ReqResp, <<>>,
+                  Common(<< [n |-> "GetItem", action |-> "act", input |-> [msg |-> "request", parts |-> "parameters", headers |-> <<>>],
+                             output |-> [msg |-> "response", parts |-> "parameters", headers |-> <<>>]] >>,
+                         << Msg("request", << Part("parameters", "tns", "GetItem") >>), Msg("response", << Part("parameters", "tns", "GetItemResponse") >>) >>)
+                    @@ [second_binding |-> "after", port12_first |-> FALSE]) >>,
+   bindings_before |-> << Wsdl(ReqResp, <<>>,
+                  Common(<< [n |-> "GetItem", action |-> "act", input |-> [msg |-> "request", parts |-> "parameters", headers |-> <<>>],
+                             output |-> [msg |-> "response", parts |-> "parameters", headers |-> <<>>]] >>,
+                         << Msg("request", << Part("parameters", "tns", "GetItem") >>), Msg("response", << Part("parameters", "tns", "GetItemResponse") >>) >>)
+                    @@ [second_binding |-> "before", port12_first |-> FALSE]) >>,
+   bindings_port12 |-> << Wsdl(ReqResp \o Headers, <<>>,
+                  Common(<< [n |-> "GetItem", action |-> "act",
+                             input |-> [msg |-> "request", headers |-> << Hdr("request", "auth") >>],
+                             output |-> [msg |-> "response", headers |-> <<>>]],
+                            [n |-> "Ping", input |-> [msg |-> "request", headers |-> << Hdr("request", "auth") >>]] >>,
+                         << Msg("request", << Part("auth", "tns", "AuthHeader"), Part("bodyPart", "tns", "GetItem") >>),
+                            Msg("response", << Part("parameters", "tns", "GetItemResponse") >>) >>)
+                    @@ [second_binding |-> "after", port12_first |-> TRUE]) >>,
    \* WSDL does not fix the order of soap:header and soap:body inside wsdl:input / wsdl:output
    headers_first |-> << Wsdl(ReqResp \o Headers, <<>>,
                   Common(<< [n |-> "GetItem", action |-> "act",
@@ -373,7 +419,7 @@ WsdlCases ==
                             [n |-> "Ping", input |-> [msg |-> "request", headers |-> << Hdr("request", "auth"), Hdr("request", "trace"), Hdr("request", "sess") >>]] >>,
                          << Msg("request", << Part("trace", "tns", "TraceHeader"), Part("sess", "tns", "SessionHeader"), Part("zbody", "tns", "GetItem"), Part("auth", "tns", "AuthHeader") >>),
                             Msg("response", << Part("sess", "tns", "SessionHeader"), Part("answer", "tns", "GetItemResponse"), Part("trace", "tns", "TraceHeader") >>) >>)) >>]
-WsdlLabels == IF Tier = "quick" THEN DOMAIN WsdlCases \ {"headers_many"} ELSE DOMAIN WsdlCases
+WsdlLabels == IF Tier = "quick" THEN DOMAIN WsdlCases \ {"headers_many", "bindings_before"} ELSE DOMAIN WsdlCases
 
 Space == IF Slice = "types" THEN {[kind |-> "types", label |-> l] : l \in TypeLabels} ELSE {[kind |-> "wsdl", label |-> l] : l \in WsdlLabels}
 FilesOf(x) == IF x.kind = "types" THEN TypeCases[x.label] ELSE WsdlCases[x.label]
